@@ -980,6 +980,18 @@ impl Transaction {
             return false;
         }
 
+        //
+        // only the SPV placeholders of a lite block stand for more than one
+        // transaction. the merkle tree creates one leaf per replaced transaction
+        //
+        if self.transaction_type != TransactionType::SPV && self.txs_replacements != 1 {
+            error!(
+                "ERROR: transaction claims to replace {} transactions",
+                self.txs_replacements
+            );
+            return false;
+        }
+
         if self
             .from
             .iter()
